@@ -5,7 +5,7 @@ import json, subprocess
 P = {
  "C01": ("structural necessary conditions of the core semantics: exhaustive dispatch with the right helper and argument threading per node, null on wrongly-typed selection, null-pruning in every projection producer, projection levels / selector continuation / node threading in the Pratt loop, binding-power table, no write to the input during evaluation",
          "does not decide the values helpers compute (index arithmetic, flatten depth, …); a change that keeps routing, pruning and null-ness intact is invisible"),
- "C02": ("arity and expression-reference position of all 41 built-ins computed from the parser's helpers against the specification table; invalid-type on every failed type test, the integer-coercion protocol (non-number → invalid-type, non-integer → invalid-value, negative count → invalid-value), scope threading into expression references, stable sort_by",
+ "C02": ("arity and expression-reference position of all 41 built-ins computed from the parser's helpers against the specification table; invalid-type on every failed type test, the integer-coercion protocol (non-number → invalid-type, non-integer → invalid-value, negative count → invalid-value), scope threading into expression references, stable sort_by; arguments the specification types `any` never reach an invalid-type return; the integer coercion accepts exactly the values of each numeric kind that fit an int",
          "does not decide result values, defaults of optional arguments or in-range behaviour of each function"),
  "C03": ("absence of the enumerated panic classes on every path: unchecked type assertions, nil interface receivers in Error(), reversed two-sided slices, constant indices without a length fact, division by zero, magnitude-driven allocations, explicit panics / Must* / NaN-panicking decimal methods, interface == on uncomparable values, dropped errors; unbounded recursion is a recorded finding",
          "general index/slice bounds safety (135 bounds checks the compiler cannot prove) and nil-map/nil-pointer safety beyond the listed receivers are not decided"),
@@ -29,11 +29,11 @@ P = {
          "the walk over the characters of a string (skipping lo code points, taking every step-th) is not decided beyond the clamp siblings and the units/decode rules; machine wrap-around at the 64-bit limits is not modelled (linear forms are over the integers)"),
  "C13": ("sort_by reaches only a stable sort with strict Less and complete Swap, sorting happens on a clone, type errors are decided by scanning every element (never inside a comparator), keys compared as decimals",
          "that comparison is by value/code point (library facts) and extremal-element selection beyond type checks are not decided"),
- "C14": ("every numeric classification lists the same 14 kinds with uniform results; float and decimal paths trap the same conditions and round the same way (integerDivide is a recorded finding); integer coercion decided on the decimal value; lossless integer conversions; coerced integers never become results",
+ "C14": ("every numeric classification lists the same 14 kinds with uniform results; float and decimal paths trap the same conditions and round the same way (integerDivide is a recorded finding); integer coercion decided on the decimal value; lossless integer conversions; coerced integers never become results; the interval of values each machine-integer kind may pass as an integer argument is exactly the part of the kind that fits an int (host and 32-bit), floats only after a comparison with both bounds of int",
          "equality of values produced by the float64 and decimal128 paths outside exact representability is not decided"),
  "C15": ("the only nondeterminism source available is map iteration: every map range is order-insensitive except in the exempted member enumerators; no time/rand/env/goroutines/pointer values; no state between calls; no writes to the input",
          "encoding/json and sort are assumed deterministic"),
- "C16": ("scanners stop at their own delimiter and skip exactly one decoded rune after a backslash; raw-string, quoted-identifier and backtick unescaping tables; UseNumber and trailing-input test; U+FFFD accepted; no decode failure turned into a value",
+ "C16": ("scanners stop at their own delimiter and skip exactly one decoded rune after a backslash; raw-string, quoted-identifier and backtick unescaping tables; UseNumber and trailing-input test; a literal whose text decodes completely is rejected only when its value is none of the six JSON carriers; U+FFFD accepted; no decode failure turned into a value",
          "the round trip as a whole needs the escaper, which is not in the repository"),
  "C17": ("contradictions between sibling implementations that make two spellings diverge: all projection producers prune null, Current/non-Current pairs dispatch alike, selector continuation vs pipe decided on exactly the projecting nodes, projection stop levels per construct, parentheses end a projection, sibling construction sites agree",
          "the identities as equalities of values for arbitrary sub-expressions are not decided"),
